@@ -7,8 +7,10 @@ ROOT = os.path.dirname(os.path.dirname(os.path.abspath(__file__)))
 rows = []
 for d in sorted(glob.glob(os.path.join(ROOT, "seeded", "C??-*"))):
     name = os.path.basename(d)
-    prop, k = name.split("-")
-    inc = os.path.join(ROOT, "seeded", "_incoming", prop, k, "detection.json")
+    parts = name.split("-")
+    prop, k = parts[0], parts[-1]
+    incdir = "_incoming2" if len(parts) == 3 else "_incoming"
+    inc = os.path.join(ROOT, "seeded", incdir, prop, k, "detection.json")
     if os.path.exists(inc):
         shutil.copy(inc, os.path.join(d, "detection.json"))
     det = json.load(open(os.path.join(d, "detection.json"))) if os.path.exists(os.path.join(d, "detection.json")) else {}
